@@ -263,6 +263,34 @@ pub fn run(rep: &mut Report) {
         }
     });
 
+    // (e) long non-ASCII text wherever the user's text may be quoted back in an error marker: every byte
+    // offset up to ~300 falls inside a multi-byte character in one of the variants
+    let mut long_cases: Vec<String> = vec![];
+    for k in 0..4usize {
+        for n in (5..45).chain(60..70).chain(120..135).chain(250..260) {
+            for c in ['é', '日', '𝄞'] {
+                let junk: String = "x".repeat(k) + &c.to_string().repeat(n);
+                long_cases.push(format!("pre|{{{}}}", junk));
+                long_cases.push(format!("pre|{{d(%Y {} %Q)}}", junk));
+                long_cases.push(format!("pre|{{d(%Y)({})}}", junk));
+                long_cases.push(format!("pre|{{m:{}}}", junk));
+                long_cases.push(format!("pre|{{X({})({})}}|{{{}({})}}", junk, junk, junk, junk));
+            }
+        }
+    }
+    let long_ref = &long_cases;
+    run_cases(rep, "long-junk", long_cases.len() as u64, |rep, rng, idx| {
+        let s = &long_ref[idx as usize];
+        let ctx = plain_ctx(rng);
+        rep.case_enumerated(true);
+        rep.count("long_non_ascii_junk_patterns", 1);
+        if let Some(Outcome::Ok { text, .. }) = exercise(rep, s, &ctx, "long-junk") {
+            if !String::from_utf8_lossy(&text).starts_with("pre|") {
+                rep.violation("C11:prefix-before-error-not-rendered", json!({"pattern": s, "got": crate::fsutil::show_bytes(&text)}));
+            }
+        }
+    });
+
     // (d) random unicode
     let n = if thorough { 600_000 } else { 60_000 };
     run_cases(rep, "unicode", n, |rep, rng, _| {
